@@ -57,7 +57,7 @@ type result struct {
 const barrier = 2 * time.Second
 const stepTimeout = 5 * time.Second
 
-var allKinds = []string{"publish", "modack0", "seek", "ackpred", "dlforward"}
+var allKinds = []string{"publish", "modack0", "seek", "ackpred", "dlforward", "seeksnap"}
 
 func main() {
 	schedF := flag.String("schedules", "", "")
@@ -341,6 +341,57 @@ func replay(s *schedule, seed int64, scratch string) (res result) {
 			id := ms[0].AckId
 			wr.act = func(c context.Context) error {
 				_, err := w.Sub.Acknowledge(c, &pubsubpb.AcknowledgeRequest{Subscription: t, AckIds: []string{id}})
+				return err
+			}
+		case "seeksnap":
+			// the predecessor of a blocked ordered message is acknowledged by a seek to a snapshot of a
+			// SIBLING subscription in which it was already acknowledged (the seek only acks, it revives nothing)
+			t := r.subs[targets[0]].real
+			helper := r.name("subscriptions", "helper-"+x)
+			if _, err := w.Sub.CreateSubscription(r.ctx, &pubsubpb.Subscription{Name: helper, Topic: r.topic,
+				RetryPolicy: &pubsubpb.RetryPolicy{MinimumBackoff: durationpb.New(20 * time.Second)}}); err != nil {
+				return fail("error", err.Error())
+			}
+			for j := 0; j < 2; j++ {
+				if _, err := r.publish(r.topic, "q"+x); err != nil {
+					return fail("error", err.Error())
+				}
+			}
+			for m, su := range r.subs { // the other waiters' subscriptions consume both, in order
+				if keep[m] {
+					continue
+				}
+				for j := 0; j < 2; j++ {
+					ms, err := r.pullAll(su.real)
+					if err != nil || len(ms) != 1 {
+						return fail("error", fmt.Sprintf("seeksnap precondition on %s: %d, %v", m, len(ms), err))
+					}
+					if err := r.ack(su.real, ms); err != nil {
+						return fail("error", err.Error())
+					}
+				}
+			}
+			hm, err := r.pullAll(helper) // unordered: both; acknowledge only the first
+			if err != nil || len(hm) != 2 {
+				return fail("error", fmt.Sprintf("seeksnap precondition (helper): %d, %v", len(hm), err))
+			}
+			first := hm[0]
+			if hm[1].Message.PublishTime.AsTime().Before(hm[0].Message.PublishTime.AsTime()) {
+				first = hm[1]
+			}
+			if err := r.ack(helper, []*pubsubpb.ReceivedMessage{first}); err != nil {
+				return fail("error", err.Error())
+			}
+			snap := r.name("snapshots", "snap-"+x)
+			if _, err := w.Sub.CreateSnapshot(r.ctx, &pubsubpb.CreateSnapshotRequest{Name: snap, Subscription: helper}); err != nil {
+				return fail("error", err.Error())
+			}
+			tm, err := r.pullAll(t) // the predecessor only; the successor is blocked behind it
+			if err != nil || len(tm) != 1 {
+				return fail("error", fmt.Sprintf("seeksnap precondition (target): %d, %v", len(tm), err))
+			}
+			wr.act = func(c context.Context) error {
+				_, err := w.Sub.Seek(c, &pubsubpb.SeekRequest{Subscription: t, Target: &pubsubpb.SeekRequest_Snapshot{Snapshot: snap}})
 				return err
 			}
 		case "dlforward":
